@@ -1,5 +1,5 @@
 (** C11 — Sessions end only for cause, and ending one removes every trace of it. *)
-From Wasp Require Import Model.Base Spec.MatchSpec Model.DState Model.IdPool Model.Mount Model.Node Proofs.BaseFacts Proofs.MountFacts Proofs.NodeFacts.
+From Wasp Require Import Model.Base Spec.MatchSpec Model.DState Model.IdPool Model.Mount Model.Node Proofs.BaseFacts Proofs.MountFacts Proofs.NodeFacts Proofs.DStateFacts Proofs.TakeoverFacts Proofs.TraceFacts.
 From stdpp Require Import list strings.
 Open Scope Z_scope.
 
@@ -23,6 +23,48 @@ Theorem end_closes_connection : ∀ cl i s clk, (shutdown cl i s true clk).2 = [
 Proof. exact no_will_after_disconnect. Qed.
 Print Assumptions end_closes_connection.
 
+(** "... its session record and all of its subscriptions disappear".  Every subscription the
+    session remembers ([ss_topics]: what SUBSCRIBE added and UNSUBSCRIBE did not remove) is
+    tombstoned on its host: the stored entry is the tombstone, and neither ByPattern for any topic
+    nor the listing shows an entry of that session under that filter any more.  Premise: the
+    node's clock reading is above the stamp of the entry it replaces (LWW, C08). *)
+Theorem end_removes_every_subscription : ∀ cl i s clk pat,
+  subs_ok (d_subs (n_d (getn cl i))) → ss_id s ≠ "" → Forall (λ t, t ≠ "") (ss_topics s) → pat ∈ ss_topics s →
+  (∀ old, abs_subs (d_subs (n_d (getn cl i))) (pat, ss_id s) = Some old → sub_ts old < clk) → 0 < clk →
+  let d' := n_d (after_unsub cl i s clk) in
+  abs_subs (d_subs d') (pat, ss_id s) = Some (tomb (ss_id s) (d_peer (n_d (getn cl i))) clk pat) ∧
+  (∀ topic u, u ∈ sub_by_pattern d' topic → ¬ (s_sid u = ss_id s ∧ s_pattern u = pat)) ∧
+  (∀ u, u ∈ sub_all d' → ¬ (s_sid u = ss_id s ∧ s_pattern u = pat)).
+Proof. exact end_removes_subscriptions. Qed.
+Print Assumptions end_removes_every_subscription.
+
+(** ... and when the identifier still resolves to the session, its record is gone too *)
+Theorem end_removes_the_record : ∀ cl i s clk m,
+  let n2 := after_unsub cl i s clk in
+  sess_ok (d_sess (n_d n2)) → alookup (ss_id s) (d_sess (n_d n2)) = Some m → sess_added m = true → sess_ts m < clk →
+  let d' := (sess_delete (n_d n2) (ss_id s) clk).1 in
+  sess_get d' (ss_id s) = None ∧ (∀ x, x ∈ sess_all d' → m_sid x ≠ ss_id s).
+Proof. exact end_removes_record. Qed.
+Print Assumptions end_removes_the_record.
+
+(** "... from every node's view once the resulting broadcasts are delivered": what shutdownSession
+    does to the replicated state is the operation sequence [end_ops] (one tombstone per remembered
+    filter, then the record), the broadcasts it queues are exactly those of that sequence, and
+    a node whose view agreed before and that merges them agrees afterwards (C09) — so the two
+    theorems above hold of its view as well. *)
+Theorem end_is_conveyed_to_every_node : ∀ cl i s clk r,
+  let n0 := getn cl i in
+  let n2 := after_unsub cl i s clk in
+  let n3 := mutate n2 (sess_delete (n_d n2) (ss_id s) clk) in
+  dok (n_d n0) → dok r → same_abs (n_d n0) r →
+  ss_id s ≠ "" → Forall (λ t, t ≠ "") (ss_topics s) →
+  (∀ old, alookup (ss_id s) (d_sess (n_d n0)) = Some old → sess_ts old < clk) →
+  let run := origin_run (n_d n0) (end_ops (ss_id s) (ss_topics s) clk true) in
+  n_d n3 = run.1 ∧ n_out n3 = n_out n0 ++ run.2 ∧
+  dok run.1 ∧ same_abs run.1 (fold_left merge_event run.2 r).
+Proof. exact end_is_conveyed. Qed.
+Print Assumptions end_is_conveyed_to_every_node.
+
 (** the keep-alive allowance is armed when CONNACK is written and re-armed by every packet:
     2 x keep-alive (non-vacuity / regression examples: idle right after CONNECT, then a ping) *)
 Example c11_history :
@@ -34,5 +76,5 @@ Example c11_history :
   ∧ nth 2%nat o [] = [Out "a" OPingResp; Deadline "a" 120000]
   ∧ nth 3%nat o [] = [Out "b" (OConnAck 4); Deadline "b" 3000]
   ∧ nth 4%nat o [] = [Closed "a"]
-  ∧ nth 5%nat o [] = [Listed 0%nat [] [] []].
+  ∧ nth 5%nat o [] = [Listed 0%nat [] [] [] 0%nat].
 Proof. vm_compute. done. Qed.
